@@ -58,6 +58,13 @@ TABLE = {
             "Symbolic execution of sum/cumsum/mean/prod/diff/ediff1d/inner/outer/matmul/det (function, method and numpy.add.reduce/accumulate spellings) with symbolic coefficients; all axes, "
             "axis tuples, keepdims, n, prepend/append; matrices 1x1..3x3 (4x4 thorough) and stacks; oracle = numpy's own fold over an object array of model polynomials, Leibniz formula for det.",
             E1_NOTE, E1_TECH),
+    "C11": ("model_checking", "E1 SymObj",
+            "Symbolic execution on constant polynomial arrays whose values are integer atoms (repeated atoms and literals make ties reachable): sum prod cumsum mean diff ediff1d, amax amin argmax "
+            "argmin and the max/min methods for every axis / axis pair / keepdims, the six comparisons, maximum/minimum, any all count_nonzero nonzero logical_and/or, floor_divide remainder "
+            "true_divide (floor(x/y) as an integer atom), and refusal (FeatureNotSupported) of non-constant divisors by the numeric division functions; oracle = the numpy function itself on the "
+            "object array of the same symbolic values.",
+            E1_NOTE + " PARTIAL: rounding functions (around ceil floor rint round), isclose/allclose, float rounding of true division, exact result dtypes (only bool / integer kind is checked) and divmod "
+            "(no object loop in numpy; native runs only) are not decided by this technique.", E1_TECH),
     "C12": ("model_checking", "E2 Kernels",
             "(A) the raw-copy kernels' dispatch table is read from cvalues.pyx; every constructor / cast / arithmetic / indexing entry point is executed per dtype configuration (14 dtypes, ordered "
             "pairs) with recording wrappers on the kernel entry points, and for each recorded kernel call (source dtype T, field dtype D) z3 decides over all coefficient bit patterns and all initial "
